@@ -1563,18 +1563,34 @@ fn run_metrics(c: &MetricsCase, large: bool, stats: &Stats) -> CaseResult {
 
 fn main() {
     let ctx = Ctx::from_args("C11");
-    ctx.set_rule("tbd");
-    ctx.prop_stage("store", Isolation::Threads, ctx.n(6_000, 60_000), store_strategy, test_store);
-    ctx.prop_stage("big-store", Isolation::Threads, ctx.n(60, 600), || big_store_strategy(12_000), test_store);
+    ctx.set_rule("store/big-store/huge-store: 1..4 axes, 1..12 supplied regions (per-axis triples: unused axis, one-sided sorted triples with equalities, master-like, from-zero, unsorted, zero-crossing, beyond +-1), \
+        1..6 row shapes (columns = region + width class: explicit 0 / i8 / i16 / i32 / boundary values, width cap per case), rows = groups (shape, count, base, step) giving duplicates, runs and all-zero rows, \
+        handed over as generated / reversed / round-robin / scrambled, to VariationStoreBuilder::new or new_with_implicit_indices; store: <= 40 groups of mostly 1 row, big-store: <= 6 groups of up to 12000 (thorough 30000) rows, \
+        huge-store: > 65535 distinct rows of one shape. Each row is read back through the remap (independent row decoder) and up to 41 rows x 1..4 locations (region start/peak/end +-1, midpoints, 0, +-1, random) go through \
+        compute_delta / compute_float_delta. Non-trivial: the built store has >= 2 subtables, or fewer regions than supplied, or fewer rows than supplied; distinct by hash of (mode, spec). \
+        normalize: 1..3 axes (typical, integer, fractional, equalities, 1-ulp spans, one-sided spans up to the 16.16 range) x 1..23 user values (min/default/max +-2 ulp, interior, raw, huge); non-trivial: a non-degenerate axis and >= 2 values. \
+        avar: 1..3 valid segment maps (0 or 3..11 points) queried at every point, +-2 ulp, between points; non-trivial: a map with > 3 points. \
+        location: Kit font with fvar (+ avar) and 0..7 settings (unknown tags, repeated axes, omitted axes, +-inf); non-trivial: a set axis under an avar map with > 3 points. \
+        metrics: Kit font with hmtx (numberOfHMetrics in 1..=numGlyphs, numGlyphs 1..40) + hand-assembled HVAR around the builder's store in 4 modes (implicit/no maps, advance map, advance+lsb maps, implicit+lsb map; \
+        hand-encoded DeltaSetIndexMap formats 0/1, entry sizes 1..4, map counts < numGlyphs), every glyph id and ids >= numGlyphs at 1..3 locations, unscaled and one ppem; non-trivial: >= 2 glyphs and some metric differs from its base value.");
+    ctx.assume("exact model: rational tent scalars and sums in i128; fixed-point bound 0.5 + sum |delta| * (fractional axes) * 2^-17 (one 16.16 rounding per axis, one final rounding); float bound 2^-23 relative per rounding step");
+    ctx.assume("normalize and avar results may differ from the exact rational value by at most 2^-16 (rounding mode of the 16.16 division is not part of the property); exact at min/default/max, at map points, and when clamped");
+    ctx.assume("location: user values are multiples of 2^-16 (exact in 16.16); checked as to_2dot14(apply(normalize(v))) composed from the separately checked parts with the harness's own (x+2)>>2, and against a bracket from the exact formulas");
+    ctx.assume("metrics domain: every region is inactive at the default location (skrifa treats the all-zero location as 'no variations'); a glyph's delta magnitude < 32768 (HVAR deltas are returned as 16.16); scaled results < 30000 px; \
+        ppem is a multiple of 1/64; scaled tolerance (|v|/128 + 0.5) * 2^-16 + 2^-23 relative (16.16 scale factor and result)");
+    ctx.assume("sums of deltas that do not fit i32 are not checked against compute_delta (no specified value); implicit-index mode is used with at most 65535 rows");
+    let q = ctx.quick();
+    ctx.prop_stage("store", Isolation::Threads, ctx.n(30_000, 300_000), store_strategy, test_store);
+    ctx.prop_stage("big-store", Isolation::Threads, ctx.n(400, 3_000), move || big_store_strategy(if q { 12_000 } else { 30_000 }), test_store);
     ctx.index_stage("huge-store", Isolation::Threads, 3, huge_case, test_store);
-    if !ctx.quick() {
-        ctx.prop_stage("huge-store-generated", Isolation::Threads, 24, || big_store_strategy(90_000), test_store);
+    if !q {
+        ctx.prop_stage("huge-store-generated", Isolation::Threads, 32, || big_store_strategy(90_000), test_store);
     }
-    ctx.prop_stage("normalize", Isolation::Threads, ctx.n(20_000, 200_000), norm_strategy, test_norm);
-    ctx.prop_stage("normalize-widespan", Isolation::Threads, ctx.n(2_000, 2_000), widespan_strategy, test_widespan);
-    ctx.prop_stage("avar", Isolation::Threads, ctx.n(20_000, 200_000), avar_strategy, test_avar);
-    ctx.prop_stage("location", Isolation::Threads, ctx.n(20_000, 200_000), loc_strategy, test_loc);
-    ctx.prop_stage("metrics", Isolation::Threads, ctx.n(6_000, 60_000), metrics_strategy, test_metrics);
-    ctx.prop_stage("metrics-large-advance", Isolation::Threads, ctx.n(300, 300), metrics_strategy, test_metrics_large);
+    ctx.prop_stage("normalize", Isolation::Threads, ctx.n(100_000, 1_000_000), norm_strategy, test_norm);
+    ctx.prop_stage("normalize-widespan", Isolation::Threads, ctx.n(2_000, 20_000), widespan_strategy, test_widespan);
+    ctx.prop_stage("avar", Isolation::Threads, ctx.n(100_000, 1_000_000), avar_strategy, test_avar);
+    ctx.prop_stage("location", Isolation::Threads, ctx.n(100_000, 1_000_000), loc_strategy, test_loc);
+    ctx.prop_stage("metrics", Isolation::Threads, ctx.n(30_000, 300_000), metrics_strategy, test_metrics);
+    ctx.prop_stage("metrics-large-advance", Isolation::Threads, ctx.n(300, 3_000), metrics_strategy, test_metrics_large);
     ctx.finish();
 }
